@@ -432,6 +432,7 @@ func c13(r *ev.Result, tier string) {
 
 	/* (a') the same verdicts under other process-wide HTTP settings. */
 	c13Proxied(r, w, id)
+	c13Program(r, w, id)
 	checkDefaults("after the proxied calls (the harness restored what it had changed)")
 
 	/* (a') the server named in other ways than by its IP literal. */
